@@ -113,6 +113,7 @@ fn prelude_of(attrs: Vec<&Attribute>) -> Prelude {
     Prelude {
         doc: Vec::new(),
         attrs: attrs_of(attrs),
+        docm: None,
     }
 }
 
